@@ -690,6 +690,8 @@ def search(rep: Report):
     for fn, kw, _tag in all_cases(rng, "thorough"):
         if time.time() > deadline:
             return
+        if fn == "multiclass_binned_auroc":
+            continue        # recorded finding (per-sample output), replayed on its witness by check_known_finding()
         if replay_case(fn, kw) is False:
             real = real_call(fn, kw)
             rep.violation(sig(fn, kw, "differs-from-per-threshold-counting"), f"{fn} leaves the C06 statement",
